@@ -238,6 +238,12 @@ def oracle(case):
             for p, e_, g in diff(o['first'][cfg], o['second'][cfg], limit=2):
                 out.append(Disc('repeated-call-differs', f'{cfg} ' + _where(o['first'][cfg], p),
                                 e_, g, note=f'hashseed={hs}'))
+            for rec in o['first'][cfg]:
+                if rec and rec[0] == 'same-object' and rec[2] != rec[3]:
+                    out.append(Disc('later-call-on-same-object-differs', f'{cfg} {rec[1]}',
+                                    rec[2], rec[3], note=f'hashseed={hs}: asked again after '
+                                    'closure() calls on the same object'))
+                    break
         if o['raw_before'] != o['raw_after']:
             out.append(Disc('read-only-calls-changed-database', f'hashseed={hs}',
                             o['raw_before'], o['raw_after']))
